@@ -17,6 +17,16 @@ pub mod digest {
     impl Feed for &&mut [u8] {
         open spec fn feed_view(&self) -> Seq<u8> { (**self)@ }
     }
+    // further AsRef<[u8]> types a maintainer may hand to update() (the real parameter is `impl AsRef<[u8]>`)
+    impl<const N: usize> Feed for [u8; N] {
+        open spec fn feed_view(&self) -> Seq<u8> { self@ }
+    }
+    impl<const N: usize> Feed for &[u8; N] {
+        open spec fn feed_view(&self) -> Seq<u8> { (*self)@ }
+    }
+    impl Feed for &Vec<u8> {
+        open spec fn feed_view(&self) -> Seq<u8> { (*self)@ }
+    }
 
     pub trait Digest: Sized {
         // ghost: everything fed so far
